@@ -330,6 +330,7 @@ func TestC11(t *testing.T) {
 	r.Extra("sequence_length", L)
 	panickingReaders(t, r)
 	lateReaders(t, r)
+	readerOutlivesVariable(r)
 	concurrentC11(t, r)
 	rawRaceC11(t, r)
 	r.Finish(t)
@@ -666,6 +667,53 @@ func lateReaders(t *testing.T, r *ev.Run) {
 					r.Violation(v[0], v[1], map[string]any{"impl": impl, "size": size, "late": late})
 				}
 			}
+		}
+	}
+}
+
+// readerOutlivesVariable: the application keeps only the io.Reader it got from NewReader and lets go of the secret
+// itself; garbage collections run between the chunked reads. Nobody has closed the secret, so the reader keeps
+// seeing the original bytes up to EOF (a finalizer must not tear the secret down under it).
+func readerOutlivesVariable(r *ev.Run) {
+	for _, impl := range []string{"protectedmemory", "memguard"} {
+		for _, size := range []int{10, 32, 4097} {
+			journal(fmt.Sprintf("C11 reader outlives the secret variable impl=%s size=%d", impl, size))
+			want := make([]byte, size)
+			for i := range want {
+				want[i] = byte(i*11 + 5)
+			}
+			mk := func() io.Reader {
+				s, err := implFactory(impl).New(append([]byte(nil), want...))
+				if err != nil {
+					return nil
+				}
+				return s.NewReader() // s goes out of scope here
+			}
+			rd := mk()
+			r.Eval(1)
+			r.Count("reader_outlives_variable_cases", 1)
+			if rd == nil {
+				r.Violation("c11-create-failed:"+impl, fmt.Sprintf("%s size=%d: New failed", impl, size), nil)
+				continue
+			}
+			var got []byte
+			buf := make([]byte, 3)
+			var rerr error
+			for k := 0; k < 5000 && rerr == nil; k++ {
+				if k < 6 {
+					runtime.GC()
+					runtime.Gosched()
+					time.Sleep(2 * time.Millisecond) // finalizers run on their own goroutine
+				}
+				var n int
+				n, rerr = rd.Read(buf)
+				got = append(got, buf[:n]...)
+			}
+			if rerr != io.EOF || !bytes.Equal(got, want) {
+				r.Violation("c11-reader-cut-short:"+impl, fmt.Sprintf("%s size=%d: only the reader was kept, the garbage collector ran between reads, and the reader returned %d of %d bytes (equal prefix=%v) and ended with %v: the secret was torn down although nobody closed it", impl, size, len(got), size, bytes.HasPrefix(want, got), rerr), map[string]any{"impl": impl, "size": size})
+			}
+			r.Distinct(fmt.Sprintf("reader-outlives|%s|%d", impl, size))
+			runtime.KeepAlive(rd)
 		}
 	}
 }
